@@ -343,3 +343,13 @@ func SaveFailure[C any](p Prop[C], c C, r Result) string { return saveFailure(p,
 func G[C any](g *rapid.Generator[C]) func(*rapid.T) C {
 	return func(t *rapid.T) C { return g.Draw(t, "case") }
 }
+
+// Replaying reports whether the process was started to replay one saved case.
+func Replaying() bool { return os.Getenv("VERIF_REPLAY") != "" }
+
+// AddEvaluations counts n further executions for an enumerating sub-check.
+func AddEvaluations[C any](p Prop[C], n int) {
+	mu.Lock()
+	defer mu.Unlock()
+	getStats(p.full()).Evaluations += n
+}
